@@ -626,7 +626,11 @@ class DestHandler:
         self._reset_internal(False)
 
     def _handle_fd_without_previous_metadata(self, first_pdu: bool, fd_pdu: FileDataPdu) -> None:
-        self._params.fp.progress = fd_pdu.offset + len(fd_pdu.file_data)
+        # The progress must never decrease: file data can arrive out of order, be duplicated or
+        # arrive after the EOF PDU, and the lost segment added below starts at offset 0.
+        self._params.fp.progress = max(
+            self._params.fp.progress, fd_pdu.offset + len(fd_pdu.file_data)
+        )
         if len(fd_pdu.file_data) > 0:
             start = fd_pdu.offset
             if first_pdu:
